@@ -1,6 +1,8 @@
 //! `rainverif <component> --tier quick|thorough --seed N --drv <raindrv> --out <file> [--replay-case "<line>"]`
 
 mod c04;
+mod c05;
+mod sched;
 mod c12;
 mod c13;
 mod c14;
@@ -52,6 +54,26 @@ fn main() {
                 let secs = if tier == "thorough" { 3000 } else { 420 };
                 shard::run_sharded(&mut rep, "lsm", &pass, n, std::time::Duration::from_secs(secs), "c09:operation-hangs");
                 rep.rule = lsm::rule().to_string();
+                rep
+            }
+        }
+        "c05" | "c06" => {
+            let sh = shard::parse_shard(&args);
+            let only = arg(&args, "--only").or_else(|| if comp == "c06" { Some("batch-parked".to_string()) } else { None });
+            if sh.is_some() || replay.is_some() || std::env::var("VERIF_NOSHARD").is_ok() {
+                c05::run(&tier, seed, replay.as_deref(), sh, only.as_deref())
+            } else {
+                let mut rep = report::Report::new(&comp, c05::rule());
+                let n = par::threads().min(8);
+                let mut pass: Vec<String> = vec!["--tier".into(), tier.clone(), "--seed".into(), seed.to_string()];
+                if let Some(o) = &only {
+                    pass.push("--only".into());
+                    pass.push(o.clone());
+                }
+                let secs = if tier == "thorough" { 3000 } else { 500 };
+                shard::run_sharded(&mut rep, "c05", &pass, n, std::time::Duration::from_secs(secs), "c09:operation-hangs");
+                rep.rule = c05::rule().to_string();
+                rep.component = comp.clone();
                 rep
             }
         }
